@@ -91,6 +91,9 @@ def jobs(tier, seed):
     for i in range(len(RPOWS)):
         out.append(('principal-rpow-%s' % RPOWS[i], dict(kind='principal', name='rpow', k=i)))
     out.append(('ring-array', dict(kind='ring_array', name='mul', k=0)))
+    for fn in FUNCS:
+        for shp in (1, 2):
+            out.append(('func-array-%s-%dd' % (fn, shp), dict(kind='func_array', name=fn, k=shp)))
     out.append(('concrete-witness-negative-base', dict(kind='witness', name='pow', k=0)))
     return out
 
@@ -155,6 +158,8 @@ def run_job(job, kind, name, k):
         return ring(job, mc, name)
     if kind == 'ring_array':
         return ring_array(job, mc)
+    if kind == 'func_array':
+        return func_array(job, mc, name, k)
     if kind == 'pow':
         return power(job, mc, k)
     if kind == 'func':
@@ -263,6 +268,59 @@ def ring_array(job, mc):
         r1, r2 = of_symc(np.asarray(res.z1)[e]), of_symc(np.asarray(res.z2)[e])
         job.prove('element %d: u-part' % e, U(r1, r2).eq(U(x1, x2) * U(y1, y2) + U(x1, x2)), [], dict(key='C12:ring:array', kind='bicomplex', op='array'))
         job.prove('element %d: v-part' % e, V(r1, r2).eq(V(x1, x2) * V(y1, y2) + V(x1, x2)), [], dict(key='C12:ring:array', kind='bicomplex', op='array'))
+
+
+def func_array(job, mc, name, ndim):
+    """array-valued arguments are handled elementwise: entry e of f(array) is, term for term, f of the scalar Bicomplex made
+    of entry e -- also when some entries have z2 == 0 exactly (first-derivative points) and others do not.  Every path of the
+    real code is explored (data-dependent shortcuts such as ``if not z2.any()`` fork)."""
+    shape = (3,) if ndim == 1 else (2, 2)
+    info = dict(key='C12:func-array:%s' % name, kind='bicomplex', op='array-' + name, k=ndim)
+    a, b, c, d = (z3.Real('x' + ch + '0') for ch in 'abcd')
+
+    def harness():
+        with tr.traced(extra=[(mc, '_TINY', 0.0)]):
+            z1 = np.empty(shape, dtype=object)
+            z2 = np.empty(shape, dtype=object)
+            for i, idx in enumerate(np.ndindex(shape)):
+                z1[idx] = sn.SymC(sn.real_var('xa%d' % i), sn.real_var('xb%d' % i))
+                # entry 1 has no j part at all, the others are genuinely bicomplex
+                z2[idx] = sn.SymC(sn.const(0), sn.const(0)) if i == 1 else sn.SymC(sn.real_var('xc%d' % i), sn.real_var('xd%d' % i))
+            x = mc.Bicomplex(z1.view(sn.SymArr), z2.view(sn.SymArr))
+            res = getattr(x, name)()
+            each = [getattr(mc.Bicomplex(sn.scalar_arr(z1[idx]), sn.scalar_arr(z2[idx])), name)() for idx in np.ndindex(shape)]
+            return res, each
+    # principal region for the log family (element-wise), none needed for the entire functions
+    pre = []
+    if name in ('log', 'sqrt'):
+        for i in range(int(np.prod(shape))):
+            ai = z3.Real('xa%d' % i)
+            pre += [ai >= z3.RealVal('1/1000000'), ai <= 1000] + [z3.And(z3.Real('x%s%d' % (ch, i)) <= ai / 4, z3.Real('x%s%d' % (ch, i)) >= -ai / 4)
+                                                                  for ch in 'bcd']
+    ex = sn.Explorer(harness, assumptions=pre, max_paths=64, timeout_ms=500)
+    npaths = 0
+    for path in ex.paths():
+        if path.exc is not None:
+            if isinstance(path.exc, sn.Unsupported):
+                raise path.exc
+            job.violation('raises', dict(info, key='C12:func-array:%s:raises' % name, exc=repr(path.exc)[:200]))
+            continue
+        npaths += 1
+        res, each = path.result
+        if not job.confirm('shape', np.shape(res.z1) == shape and np.shape(res.z2) == shape):
+            job.violation('shape', dict(info, key='C12:func-array:%s:shape' % name, got=list(np.shape(res.z1))))
+            continue
+        for i, idx in enumerate(np.ndindex(shape)):
+            for comp in ('z1', 'z2'):
+                g = of_symc(np.asarray(getattr(res, comp))[idx])
+                w = of_symc(getattr(each[i], comp))
+                if z3.eq(z3.simplify(g.r), z3.simplify(w.r)) and z3.eq(z3.simplify(g.i), z3.simplify(w.i)):
+                    job.confirm('entry %s %s is the scalar term' % (idx, comp), True)
+                else:
+                    job.prove('%s(array)[%s].%s == %s(scalar entry).%s' % (name, idx, comp, name, comp), z3.And(g.r == w.r, g.i == w.i),
+                              pre + path.conds(), info)
+    job.absorb_explorer(ex)
+    job.confirm('at least one path', npaths > 0)
 
 
 def _cpow(z, k):
@@ -380,12 +438,20 @@ def witness_failures():
                 v = float(nd.Derivative(f, method='multicomplex', n=2)(x))
             if abs(v - exact(x)) > 1e-8 * (1 + abs(exact(x))):
                 bad.append("Derivative(%s, method='multicomplex', n=2)(%r) = %r, exact %r" % (name, x, v, exact(x)))
+    # array arguments whose elements have bases of both signs: every element as accurate as the scalar call
+    xa = np.array([-2.0, 1.5, -0.5, 3.0])
+    for name, f, exact in cases + [('(x-1)**3', lambda t: (t - 1.0) ** 3, lambda x: 6 * (x - 1.0))]:
+        with cm.quiet():
+            va = np.asarray(nd.Derivative(f, method='multicomplex', n=2)(xa), dtype=float)
+        ex = np.array([exact(x) for x in xa])
+        if va.shape != xa.shape or np.any(np.abs(va - ex) > 1e-8 * (1 + np.abs(ex))):
+            bad.append("Derivative(%s, method='multicomplex', n=2)(%r) = %r, exact %r" % (name, xa.tolist(), va.tolist(), ex.tolist()))
     return bad
 
 
 def witness(job):
     bad = witness_failures()
-    if not job.confirm('integer powers and division keep the second-derivative component at negative points (12 concrete runs)', not bad):
+    if not job.confirm('integer powers and division keep the second-derivative component at negative points (17 concrete runs, scalar and mixed-sign arrays)', not bad):
         job.violation('witness', dict(key='C12:witness:negative-base-power', kind='bicomplex', op='witness', detail=bad[0]))
 
 
@@ -829,6 +895,24 @@ def numeric_deviation(mc, op, k=0, trials=40, seed=0):
         x, y = mc.Bicomplex(z1, z2), mc.Bicomplex(y1, y2)
         u, v, yu, yv = z1 - 1j * z2, z1 + 1j * z2, y1 - 1j * y2, y1 + 1j * y2
         s = 0.7
+        if op.startswith('array-') and op != 'array':
+            nm = op[len('array-'):]
+            shp = (3,) if k == 1 else (2, 2)
+            q = 0.2
+            z1a = rng.uniform(0.3, 1.4, size=shp) + 1j * rng.uniform(-q, q, size=shp) * 0.25
+            z2a = (rng.uniform(-q, q, size=shp) + 1j * rng.uniform(-q, q, size=shp)) * 0.25
+            z2a.flat[1] = 0.0
+            xa = mc.Bicomplex(z1a, z2a)
+            ra = getattr(xa, nm)()
+            worst_here, where_here = 0.0, None
+            for idx in np.ndindex(shp):
+                rs = getattr(mc.Bicomplex(z1a[idx], z2a[idx]), nm)()
+                dv = abs(complex(np.asarray(ra.z1)[idx]) - complex(np.ravel(rs.z1)[0])) + abs(complex(np.asarray(ra.z2)[idx]) - complex(np.ravel(rs.z2)[0]))
+                if dv > worst_here:
+                    worst_here, where_here = dv, (z1a[idx], z2a[idx])
+            if worst_here > worst:
+                worst, where = worst_here, where_here
+            continue
         if op.startswith('principal-'):
             nm = op[len('principal-'):]
             a0 = rng.uniform(0.2, 1.5)
